@@ -1,6 +1,6 @@
 // ======================================================================================
 // fragment ex_find.rs - D33: `it.by_ref().find(p)` is written as a call of `ex_find(&mut it, p)`, a TRUSTED stand-in that
-// carries the contract of std's `Iterator::find` (this Verus has neither `by_ref` nor `find`); and the filter "target is t"
+// carries the contract of std's `Iterator::find` (this Verus has neither `by_ref` nor `find`)
 // ======================================================================================
 
 /// std's `Iterator::find` through `by_ref()`: the first element the predicate accepts; everything up to and including it is consumed
@@ -20,9 +20,3 @@ pub fn ex_find<I: Iterator, P: FnMut(&I::Item) -> bool>(it: &mut I, p: P) -> (re
 {
     it.by_ref().find(p)
 }
-
-/// keep a reference iff its target is t
-pub open spec fn to_target<'a, E, Ix: IndexType>(t: NodeIndex<Ix>) -> spec_fn(EdgeReference<'a, E, Ix>) -> Option<EdgeReference<'a, E, Ix>> {
-    |e: EdgeReference<'a, E, Ix>| if e.node[1].i() == t.i() { Some(e) } else { None }
-}
-
